@@ -40,7 +40,25 @@ func (g *SQLGen) LitFor(t string) proto.Val {
 // StdTable builds the standard table shape used by C05-C07: u unique INT,
 // a small-domain INT, b BIGINT, s VARCHAR, f BOOLEAN (all non-NULL).
 func (g *SQLGen) StdTable(name string, rows int, extra ...proto.ColDef) (*proto.Stmt, *proto.Stmt) {
-	defs := []proto.ColDef{{Name: "u", Type: "int"}, {Name: "a", Type: "int"}, {Name: "b", Type: "bigint"}, {Name: "s", Type: "varchar", Len: 20}, {Name: "f", Type: "boolean"}}
+	return g.ShapedTable(name, rows, nil, extra...)
+}
+
+// ShapedTable is StdTable without the standard columns named in drop (u and
+// a always stay): tables of different widths under one naming scheme.
+func (g *SQLGen) ShapedTable(name string, rows int, drop []string, extra ...proto.ColDef) (*proto.Stmt, *proto.Stmt) {
+	var defs []proto.ColDef
+	for _, d := range []proto.ColDef{{Name: "u", Type: "int"}, {Name: "a", Type: "int"}, {Name: "b", Type: "bigint"}, {Name: "s", Type: "varchar", Len: 20}, {Name: "f", Type: "boolean"}} {
+		keep := true
+		for _, x := range drop {
+			if x == d.Name && x != "u" && x != "a" {
+				keep = false
+			}
+		}
+		if keep {
+			defs = append(defs, d)
+		}
+	}
+	nstd := len(defs)
 	defs = append(defs, extra...)
 	ct := &proto.Stmt{Kind: "create", Table: name, Defs: defs}
 	ins := &proto.Stmt{Kind: "insert", Table: name}
@@ -53,7 +71,10 @@ func (g *SQLGen) StdTable(name string, rows int, extra ...proto.ColDef) (*proto.
 		perm[i], perm[j] = perm[j], perm[i]
 	}
 	for i := 0; i < rows; i++ {
-		row := []proto.Val{proto.Int(int64(perm[i])), g.LitFor("int"), g.LitFor("bigint"), g.LitFor("varchar"), g.LitFor("boolean")}
+		row := []proto.Val{proto.Int(int64(perm[i])), g.LitFor("int")}
+		for _, d := range defs[2:nstd] {
+			row = append(row, g.LitFor(d.Type))
+		}
 		for _, d := range extra {
 			row = append(row, g.LitFor(d.Type))
 		}
@@ -349,7 +370,20 @@ func (g *SQLGen) Join6(tables []*model.Table) *proto.NStmt {
 				left = append(left, f)
 			}
 		}
-		kf := []string{"a", "u", "s", "b"}[r.Intn(4)]
+		var cands []string
+		for _, k := range []string{"a", "u", "s", "b"} {
+			inLeft, inNew := false, false
+			for _, f := range left {
+				inLeft = inLeft || f.Name == k
+			}
+			for _, c := range t.Cols {
+				inNew = inNew || c.Name == k
+			}
+			if inLeft && inNew {
+				cands = append(cands, k)
+			}
+		}
+		kf := cands[r.Intn(len(cands))] // u and a are in every table
 		var lf FieldInfo
 		for _, f := range left {
 			if f.Name == kf {
@@ -457,6 +491,22 @@ func (g *SQLGen) Agg7(table string, join string) *proto.NStmt {
 	// COUNT is asked for (AVG over NULL and comparisons with NULL are outside
 	// the property)
 	padded := len(n.From) > 1 && n.From[1].Join == "right"
+	if join == "both" {
+		// two narrow tables joined to the wide aggregated one, grouping by a
+		// column of each
+		n.From[1] = proto.NTable{Name: "dim", Alias: "d", Join: []string{"inner", "left"}[r.Intn(2)],
+			On: &proto.Cond{Op: "=", LHS: &proto.Operand{Qual: q, Col: "gi"}, RHS: &proto.Operand{Qual: "d", Col: "k"}}}
+		n.From = append(n.From, proto.NTable{Name: "dim2", Alias: "e", Join: []string{"inner", "left"}[r.Intn(2)],
+			On: &proto.Cond{Op: "=", LHS: &proto.Operand{Qual: q, Col: "gj"}, RHS: &proto.Operand{Qual: "e", Col: "gj"}}})
+		n.Items = []proto.NItem{
+			{Kind: "expr", Expr: valExpr(&proto.Operand{Qual: "d", Col: "label"})},
+			{Kind: "expr", Expr: valExpr(&proto.Operand{Qual: "e", Col: "gi"})},
+			{Kind: "count"},
+			{Kind: "count", Arg: &proto.Operand{Qual: "e", Col: "gj"}},
+		}
+		n.GroupBy = []proto.Operand{{Qual: "d", Col: "label"}, {Qual: "e", Col: "gi"}}
+		return n
+	}
 	if join == "dim2" {
 		// a joined table that shares column names (gi, gj) with the aggregated
 		// one: grouping columns are the same-named columns of both sides,
